@@ -60,6 +60,8 @@ class PoolSim:
         self.worker_deaths = 0
         self.slices = 0
         self.slice_log: list = []  # (task, slice#) in execution order (l1)
+        self.timeouts_armed = 0  # deadlines set by the code under test, on the virtual clock
+        self.timeouts_expired = 0
         self.coros: list[Coro] = []
 
     def next_duration(self) -> float:
@@ -107,6 +109,10 @@ def install(ps: PoolSim | None):
     _current = ps
 
 
+def current_or_none():
+    return _current
+
+
 def current() -> PoolSim:
     if _current is None:
         raise HarnessError("no PoolSim installed")
@@ -116,6 +122,41 @@ def current() -> PoolSim:
 # ------------------------------------------------------------------------------------------------
 # stdlib seam: make wait()/as_completed() drive the simulator instead of blocking
 # ------------------------------------------------------------------------------------------------
+
+
+def _timed_run(sim: Sim, pred, timeout, what: str) -> bool:
+    """Drive the heap until `pred()` holds or `timeout` units of VIRTUAL time have passed; returns pred().
+    Every deadline the code under test sets (wait/as_completed/result/AsyncResult timeouts) is measured on
+    the simulator's clock: a 0.25 s poll interval expires while tasks of 1 virtual unit are in flight."""
+    if timeout is None:
+        sim.run_until(pred, what)
+        return True
+    fired = [False]
+    sim.after(max(0.0, float(timeout)), lambda: fired.__setitem__(0, True), "timeout")
+    st = current_or_none()
+    if st is not None:
+        st.timeouts_armed += 1
+    sim.run_until(lambda: pred() or fired[0], what)
+    ok = bool(pred())
+    if not ok and st is not None:
+        st.timeouts_expired += 1
+    return ok
+
+
+class _SimClock:
+    """Stand-in for the `time` module as seen by concurrent.futures._base (as_completed and Executor.map
+    compute their deadlines with time.monotonic()): virtual time while a simulation is installed."""
+
+    def __getattr__(self, name):
+        import time as _t
+
+        return getattr(_t, name)
+
+    @staticmethod
+    def monotonic():
+        import time as _t
+
+        return _current.sim.now if _current is not None else _t.monotonic()
 
 
 class _SimEvent:
@@ -135,8 +176,7 @@ class _SimEvent:
         self._flag = False
 
     def wait(self, timeout=None):
-        self._sim.run_until(lambda: self._flag, "futures waiter")
-        return True
+        return _timed_run(self._sim, lambda: self._flag, timeout, "futures waiter")
 
 
 _orig_create_waiters = cf_base._create_and_install_waiters
@@ -158,6 +198,8 @@ def _sim_create_and_install_waiters(fs, return_when):
 def patch_stdlib():
     """Idempotent; touches only the waiter factory looked up at call time by wait/as_completed."""
     cf_base._create_and_install_waiters = _sim_create_and_install_waiters
+    if not isinstance(cf_base.time, _SimClock):
+        cf_base.time = _SimClock()
 
 
 class SimFuture(cf.Future):
@@ -174,16 +216,17 @@ class SimFuture(cf.Future):
     def __eq__(self, other):
         return self is other
 
-    def _drive(self):
+    def _drive(self, timeout=None):
         if not self.done():
-            self._ps.sim.run_until(self.done, f"future of task {self._tid}")
+            if not _timed_run(self._ps.sim, self.done, timeout, f"future of task {self._tid}"):
+                raise cf.TimeoutError()
 
     def result(self, timeout=None):
-        self._drive()
+        self._drive(timeout)
         return super().result(0)
 
     def exception(self, timeout=None):
-        self._drive()
+        self._drive(timeout)
         return super().exception(0)
 
 
@@ -448,10 +491,14 @@ class _SimAsyncResult:
         return self._success
 
     def wait(self, timeout=None):
-        self._pool._ps.sim.run_until(lambda: self._done, "AsyncResult")
+        _timed_run(self._pool._ps.sim, lambda: self._done, timeout, "AsyncResult")
 
     def get(self, timeout=None):
         self.wait(timeout)
+        if not self._done:
+            import multiprocessing
+
+            raise multiprocessing.TimeoutError
         if self._success:
             return self._value
         raise self._value
